@@ -42,6 +42,8 @@ const FAULTS: &[(&str, bool)] = &[
     ("exit0-drain-empty", true),
     ("kill-self", true),
     ("kill-before-read", true),
+    ("kill-after-partial-output", true),
+    ("exit1-after-partial-output", true),
     ("slow-ok", true),
     ("truncated-ok", false),
     ("garbage-ok", false),
@@ -240,6 +242,9 @@ fn stub_script(fault: &str, real: &str, cat: &str, head: &str, sleep: &str) -> O
         "exit0-drain-empty" => format!("{cat} >/dev/null\nexit 0\n"),
         "kill-self" => format!("{head} -c 16 >/dev/null\nkill -9 $$\n"),
         "kill-before-read" => "kill -9 $$\n".to_string(),
+        // killed / failing AFTER it already printed a prefix of the formatted text
+        "kill-after-partial-output" => format!("{cat} >/dev/null\nprintf 'pub const SOURCE'\nkill -9 $$\n"),
+        "exit1-after-partial-output" => format!("{cat} >/dev/null\nprintf 'pub const SOURCE'\nexit 1\n"),
         "slow-ok" => format!("{sleep} 2\nexec {real} \"$@\"\n"),
         "truncated-ok" => format!("{real} \"$@\" | {head} -c 100\nexit 0\n"),
         "garbage-ok" => format!("{cat} >/dev/null\nprintf 'fn ('\nexit 0\n"),
